@@ -183,9 +183,10 @@ func (h *vfH3) ServeHTTP(w http.ResponseWriter, req *http.Request) {
 	w.WriteHeader(sp.Int("status"))
 	written := 0
 	chunk := max(1, sp.Int("rspchunk"))
+	scratch := make([]byte, min(chunk, max(rn, 1))) // one buffer reused for every Write, as io.Copy does: a Writer must not retain p
 	for written < rn {
 		m := min(chunk, rn-written)
-		b := make([]byte, m)
+		b := scratch[:m]
 		for i := range b {
 			b[i] = vfByte(id+1000, written+i)
 		}
